@@ -574,7 +574,9 @@ func predCLI(c Case) (r Result) {
 		if n, st, e := ref.ParseText(expr); e == nil && st == ref.LexOK {
 			ev := &ref.Ev{}
 			_, _ = ev.Eval(n, ref.DeepCopy(doc))
-			if ev.Ambiguous {
+			if ev.Ambiguous && !strings.HasPrefix(ev.Why, "arithmetic overflow") {
+				// (a sum beyond the float64 range has no reference value, but here the referee is the
+				// library's own Search: its result has no JSON form, so jpgo must fail)
 				r.Discard = "ambiguous:" + ev.Why
 				return
 			}
@@ -651,7 +653,9 @@ func predCLI(c Case) (r Result) {
 	if n, st, e := ref.ParseText(expr); e == nil && st == ref.LexOK {
 		ev := &ref.Ev{}
 		w, werr := ev.Eval(n, ref.DeepCopy(doc))
-		if ev.Ambiguous {
+		if ev.Ambiguous && strings.HasPrefix(ev.Why, "arithmetic overflow") {
+			werr = fmt.Errorf("no reference value")
+		} else if ev.Ambiguous {
 			r.Discard = "ambiguous:" + ev.Why
 			return
 		}
